@@ -1,0 +1,5 @@
+//go:build !verif
+
+package sml
+
+func verifLexStep(l *lexer) {}
